@@ -63,7 +63,7 @@ func runCase(run *hx.Run, ops []op) {
 			if p.real {
 				netName = "real"
 			}
-			w, atoms = newWorld(p.kind, p.real, p.spe, p.epp, p.clock, p.f1)
+			w, atoms = newWorld(p.kind, p.real, p.spe, p.epp, p.clock, p.shares, p.f1)
 			orc = newOracle(p.kind, p.spe, p.epp)
 			run.Tag("case/" + p.kind + "/" + netName)
 		case w == nil:
@@ -82,6 +82,9 @@ func runCase(run *hx.Run, ops []op) {
 			if !send(w.reorgCh, reorgOf(p)) || !w.barrier() {
 				w.protoErr = "timeout"
 			}
+			atoms = w.drain()
+		case p.name == "shares":
+			w.setShares(p.shares)
 			atoms = w.drain()
 		case p.name == "indices":
 			w.clock.Store(p.clock)
@@ -134,32 +137,21 @@ type gen struct {
 	spe, epp uint64
 	tagCtr   uint64
 	failPct  int
-	noidxPct int
 }
+
+var vpool = []uint64{1, 2, 3, 4, 5, 6, 7}
 
 func (g *gen) res(slotNow uint64) fres {
 	x := g.r.Intn(100)
 	if x < g.failPct {
 		return fres{kind: 'f'}
 	}
-	if x < g.failPct+g.noidxPct {
-		return fres{kind: 'n'}
-	}
 	f := fres{kind: 'o'}
-	pool := []uint64{1, 2, 3, 4, 5}
-	for _, v := range pool {
-		if g.r.Chance(70) {
-			f.committee = append(f.committee, v)
-		}
-	}
-	if g.kind == "att" && len(f.committee) == 0 {
-		f.committee = []uint64{pool[g.r.Intn(len(pool))]}
-	}
-	n := g.r.Intn(5)
+	n := g.r.Intn(7)
 	e := slotNow / g.spe
 	seen := map[[2]uint64]bool{}
 	for i := 0; i < n; i++ {
-		d := duty{vidx: pool[g.r.Intn(len(pool))]}
+		d := duty{vidx: vpool[g.r.Intn(len(vpool))]}
 		if g.kind != "sync" {
 			switch {
 			case g.r.Chance(45): // soon
@@ -171,6 +163,9 @@ func (g *gen) res(slotNow uint64) fres {
 			}
 		}
 		k := [2]uint64{d.slot, d.vidx}
+		if g.kind == "sync" {
+			k[0] = 0
+		}
 		if seen[k] {
 			continue
 		}
@@ -180,6 +175,86 @@ func (g *gen) res(slotNow uint64) fres {
 		f.duties = append(f.duties, d)
 	}
 	return f
+}
+
+// one scripted registry entry for validator v around epoch e
+func (g *gen) share(v, e uint64) share {
+	x := share{vidx: v, own: g.r.Chance(65), liq: g.r.Chance(15)}
+	switch y := g.r.Intn(100); {
+	case y < 55:
+		x.status = 'a'
+	case y < 60:
+		x.status = 'x'
+	case y < 72:
+		x.status = 'q'
+		x.act = e + uint64(g.r.Intn(3))
+		if x.act > 0 && g.r.Bool() {
+			x.act--
+		}
+	case y < 79:
+		x.status = 'e'
+	case y < 84:
+		x.status = 's'
+	case y < 90:
+		x.status = 'u'
+	default:
+		x.status = 'n'
+	}
+	return x
+}
+
+// a registry: a random subset of the validator pool in random order; now and then nobody is attesting
+func (g *gen) shareSet(e uint64) []share {
+	var out []share
+	for _, i := range g.r.Perm(len(vpool)) {
+		if g.r.Chance(75) {
+			out = append(out, g.share(vpool[i], e))
+		}
+	}
+	if g.r.Chance(4) {
+		for i := range out {
+			out[i].status = 'e'
+		}
+	}
+	return out
+}
+
+// a registry change: a share is added / removed / liquidated / reactivated / gets new metadata; the order changes too
+func (g *gen) mutate(l []share, e uint64) []share {
+	out := append([]share(nil), l...)
+	for n := 1 + g.r.Intn(2); n > 0; n-- {
+		switch x := g.r.Intn(5); {
+		case x == 0 || len(out) == 0: // add (or replace) a share
+			v := vpool[g.r.Intn(len(vpool))]
+			k := -1
+			for i := range out {
+				if out[i].vidx == v {
+					k = i
+				}
+			}
+			if k >= 0 {
+				out[k] = g.share(v, e)
+			} else {
+				out = append(out, g.share(v, e))
+			}
+		case x == 1: // remove
+			k := g.r.Intn(len(out))
+			out = append(out[:k], out[k+1:]...)
+		case x == 2: // liquidate / reactivate
+			k := g.r.Intn(len(out))
+			out[k].liq = !out[k].liq
+		default: // metadata update
+			k := g.r.Intn(len(out))
+			n := g.share(out[k].vidx, e)
+			out[k].status, out[k].act = n.status, n.act
+		}
+	}
+	p := g.r.Perm(len(out))
+	res := make([]share, len(out))
+	for i, j := range p {
+		res[i] = out[j]
+	}
+	return res
 }
 
 func genCase(r *hx.Rng, tier string) []op {
@@ -195,14 +270,14 @@ func genCase(r *hx.Rng, tier string) []op {
 	transient := false // single failed fetch at the tick after a notice, everything else answered
 	switch r.Intn(5) {
 	case 0:
-		g.failPct, g.noidxPct = 0, 0
+		g.failPct = 0
 	case 4:
-		g.failPct, g.noidxPct = 0, 0
+		g.failPct = 0
 		transient = true
 	case 1:
-		g.failPct, g.noidxPct = 35, 10
+		g.failPct = 35
 	default:
-		g.failPct, g.noidxPct = 10, 5
+		g.failPct = 10
 	}
 	real := r.Chance(25)
 	var start uint64
@@ -230,7 +305,16 @@ func genCase(r *hx.Rng, tier string) []op {
 			}
 		}
 	}
-	ops := []op{{name: "reset", kind: g.kind, real: real, spe: g.spe, epp: g.epp, clock: start, f1: g.res(start)}}
+	reg := g.shareSet(start / g.spe)
+	ops := []op{{name: "reset", kind: g.kind, real: real, spe: g.spe, epp: g.epp, clock: start, shares: reg, f1: g.res(start)}}
+	// a notice; an indices-change notice usually follows a change of the registry
+	emit := func(n op) {
+		if n.name == "indices" && r.Chance(85) {
+			reg = g.mutate(reg, n.clock/g.spe)
+			ops = append(ops, op{name: "shares", shares: reg})
+		}
+		ops = append(ops, n)
+	}
 	notice := func(slot uint64) op {
 		switch x := r.Intn(100); {
 		case x < 28:
@@ -248,10 +332,10 @@ func genCase(r *hx.Rng, tier string) []op {
 	for i := 0; i < nticks; i++ {
 		lastOfEpoch := s%g.spe == g.spe-1
 		if !quietCase && r.Chance(8) { // notice handled before the tick of its slot
-			ops = append(ops, notice(s))
+			emit(notice(s))
 		}
 		if !quietCase && r.Chance(1) { // a TICK handled late: a notice of a later slot is handled before it
-			ops = append(ops, notice(s+1+uint64(r.Intn(int(g.spe)))))
+			emit(notice(s + 1 + uint64(r.Intn(int(g.spe)))))
 		}
 		clock := s
 		switch x := r.Intn(100); {
@@ -264,6 +348,10 @@ func genCase(r *hx.Rng, tier string) []op {
 		}
 		if g.kind == "sync" && clock/g.spe/g.epp != s/g.spe/g.epp && r.Chance(90) {
 			clock = s
+		}
+		if !quietCase && r.Chance(2) { // the registry changes without a notice (metadata update)
+			reg = g.mutate(reg, s/g.spe)
+			ops = append(ops, op{name: "shares", shares: reg})
 		}
 		tk := op{name: "tick", slot: s, clock: clock, f1: g.res(s), f2: g.res(s)}
 		if transient && len(ops) > 0 && ops[len(ops)-1].name != "tick" && ops[len(ops)-1].name != "reset" && r.Chance(60) {
@@ -279,13 +367,13 @@ func genCase(r *hx.Rng, tier string) []op {
 			p = 45
 		}
 		if !quietCase && r.Chance(p) {
-			ops = append(ops, notice(s))
+			emit(notice(s))
 			if r.Chance(25) {
-				ops = append(ops, notice(s))
+				emit(notice(s))
 			}
 		}
 		if !quietCase && s > 0 && r.Chance(1) { // a notice that is handled one tick late
-			ops = append(ops, notice(s-1))
+			emit(notice(s - 1))
 		}
 		switch x := r.Intn(100); {
 		case x < 4:
